@@ -59,8 +59,10 @@ BVals(t) ==
     [] t = "REAL"  -> << <<0, 0, 32, 64>>, <<0, 0, 128, 191>>, <<0, 0, 128, 63>>, <<255, 255, 127, 127>> >>
     [] t = "LREAL" -> << <<0, 0, 0, 0, 0, 0, 4, 64>>, <<0, 0, 0, 0, 0, 0, 240, 191>>, <<0, 0, 0, 0, 0, 0, 240, 63>>,
                          <<255, 255, 255, 255, 255, 255, 239, 127>> >>
-    [] t = "SSTRING" -> << <<97>>, <<97, 98>>, <<>>, <<97, 98, 99>> >>
-    [] t = "STRING"  -> << <<97>>, <<97, 98>>, <<>>, <<97, 98, 99>> >>
+    \* (string octets are ISO-8859-1 characters: one with a high octet second -- the small catalogues use the first two values only --
+    \*  and one whose octets happen to be well-formed UTF-8 for a character beyond U+00FF)
+    [] t = "SSTRING" -> << <<97>>, <<99, 97, 102, 233>>, <<>>, <<226, 130, 172>> >>
+    [] t = "STRING"  -> << <<97>>, <<99, 97, 102, 233>>, <<>>, <<226, 130, 172>> >>
 
 
 ----------------------------------------------------------------------------
